@@ -168,19 +168,26 @@ def published_view_uses_one_learner_predicate(ctx):
     F = ctx.F
     from .helpers_r3 import XSlice
     builders = {}
+    groups = {}
     for (b, bi, si, st) in all_agg_sites(F, "MembershipSnapshot", None, crates=("d_engine_server", "d_engine_core")):
         if re.search(r"(_test|/tests?/|test_utils|mock)", b.file or ""):
             continue
         root_ = F.root_of[b.id]
         # only functions that CLASSIFY nodes (they read NodeMeta.role); copies / conversions of an existing view are not builders
-        if not any(("NodeMeta", "role") in set((a.split("::")[-1], f) for (a, f) in fields_read(gb)) for gb in F.group_bodies(F.bodies[root_])):
+        grp = list(F.group_bodies(F.bodies[root_]))
+        for k in sorted(closure_functions(F, root_, 2)):     # the classification may be a private helper (`split_ids_by_role`)
+            hb_ = F.bodies.get(k)
+            if hb_ is not None and k != root_ and hb_.crate == "d_engine_server" and "/membership/" in (hb_.file or ""):
+                grp += [x for x in F.group_bodies(hb_) if x not in grp]
+        if not any(("NodeMeta", "role") in set((a.split("::")[-1], f) for (a, f) in fields_read(gb)) for gb in grp):
             continue
         builders.setdefault(root_, (b, bi))
+        groups[root_] = grp
     ctx.floor("C28-e", len(builders), 2, "functions that construct a MembershipSnapshot (RaftMembership::new, notify_config_applied)")
     verdicts = {}
     for root, (b0, bi0) in sorted(builders.items()):
         tests = []
-        for gb in F.group_bodies(F.bodies[root]):
+        for gb in groups.get(root, F.group_bodies(F.bodies[root])):
             for bi, blk in enumerate(gb.blocks):
                 if blk.get("cleanup"):
                     continue
